@@ -129,6 +129,14 @@ func c05Teardown(idx int, seed uint64) {
 			out.Count("c05.teardown_second_subscriber_gone_first", 1)
 		}
 		time.Sleep(time.Duration(r.Intn(3000)) * time.Microsecond)
+		if rd%3 == 2 {
+			// the stalled subscriber sends one more request before it goes: its own processor then waits
+			// for the connection's write mutex behind the publisher that is parked on its ring
+			V.SendPacket(&rc.Packet{Type: rc.PINGREQ})
+			V.Flush()
+			time.Sleep(2 * time.Millisecond)
+			out.Count("c05.teardown_request_pending_at_cut", 1)
+		}
 		V.Close() // the cut
 		stop.Store(true)
 		wg.Wait()
